@@ -48,6 +48,10 @@ def lambda_text(call, marker, multiline):
     core = f"{p}.f('lambda z: (') + {marker}" if call["deco"] == "str" else f"{p} + {marker}"
     if call["op"] == "Where":
         core = f"{p}.f('[lambda') > {marker}" if call["deco"] == "str" else f"{p} > {marker}"
+    if call["deco"] == "fstr":
+        # (tokenised piecewise since Python 3.12: the literal part is a token of its own)
+        fs = "f'{" + p + ".i}]'" if call["op"] == "Select" else "f'({" + p + ".i}'"
+        core = f"{p}.f({fs}) " + ("+" if call["op"] == "Select" else ">") + f" {marker}"
     return core
 
 
@@ -185,7 +189,7 @@ def run(prop, tier):
         d = tlcrun.fresh_dir(common.outdir(prop, "gen_" + name))
         cfg = os.path.join(d, "gen.cfg")
         tlcrun.write_cfg(cfg, constants={"MaxCalls": plan["MaxCalls"] if name == "bfs" else 3,
-                                         "Mode": '"line"' if name == "line3" else '"wide"'}, invariants=["Export"])
+                                         "Mode": {"line3": '"line"', "bfs": '"wide"'}.get(name, '"rand"')}, invariants=["Export"])
         out = os.path.join(d, "layouts.ndjson")
         st = tlcrun.run("GenLayout", cfg, d, env={"OUT_FILE": out}, workers=16, simulate=sim,
                         extra_args=(["-depth", "8", "-seed", str(common.seed() + 9)] if sim else []))
